@@ -176,8 +176,8 @@ def Stor.hoisted : Stor → Nat
   | .map x _ (.hkey _ _ elems) =>
     match compactKeys x elems with
     | some keys =>
-      hkeyElementsPrefixSize - headLen keys.length +
-        (keys.map (fun k => digestSize + singleElementPrefixSize + k.1)).sum + hoistedMElList elems
+      (hkeyElementsPrefixSize + (keys.map (fun k => digestSize + singleElementPrefixSize + k.1)).sum
+          - headLen keys.length) + hoistedMElList elems
     | none => hoistedMElList elems
   | .map _ _ (.single _ elems) => hoistedSElList elems
 def hoistedSts : List Stor → Nat
